@@ -320,3 +320,17 @@ var trustedBounds = map[string]trustedPart{
 	"lexer.(*Lexer).skipComment|slice l.input[l.pos:]":              {[]string{"low <= len"}, lexerPosInvariant + "; the slice is taken under the loop condition l.char != 0, where pos < len(input)"},
 	"token.String|index tokens[t]":                                  {[]string{"index >= 0", "index < len"}, "TokenType values are the iota constants (>= 0) held in the token tables; latent only: DUMP is the one TokenType >= len(tokens); the lexer emits directive tokens only in HTML mode while every expectPeek call (the only non-constant caller) runs in code mode or with peek in {END, ELSE, ELSE_IF, EOF}, so DUMP never reaches String; reported as information, no failing input exists"},
 }
+
+// RunDivOnly: only the R-DIVGUARD obligations.
+func (bc *boundsChecker) RunDivOnly(rule string, fns []*ssa.Function) {
+	for _, fn := range fns {
+		a := bc.ar(fn)
+		for _, b := range fn.Blocks {
+			for _, in := range b.Instrs {
+				if x, ok := in.(*ssa.BinOp); ok && (x.Op == token.QUO || x.Op == token.REM) && isInteger(x.X.Type()) {
+					bc.checkDiv(rule, fn, a, x, pointOf(in))
+				}
+			}
+		}
+	}
+}
